@@ -23,7 +23,8 @@ RULE = (
     "appliance control none / 13 relay / 10 OpenTherm bridge) x how the gateway learns of the controller (named in an "
     "otherwise empty schema, or only heard: periodic I|1F09/2309/30C9) x a loss mask over the schema-relevant exchanges "
     "(0005/000C: request lost / reply lost) of the first polling round (light, 15 %) or the first two (heavy, 40 %), the "
-    "round after that being fault-free. Run length: until converged and stable (>= 20 virtual minutes), at most 26 h (50 h "
+    "round after that being fault-free; in half of the faulty cases the protocol's writing is also paused (flow control) 1-3 times "
+    "for 0.2-5 s during the first half minute. Run length: until converged and stable (>= 20 virtual minutes), at most 26 h (50 h "
     "for heavy masks); a probe that failed - lost, or timed out in a congested send queue - is repeated 24 h later. "
     "Non-trivial = >= 2 zones of different "
     "classes or DHW present, or >= 1 schema-relevant exchange lost for good in the first round; distinct by (config, mask)."
@@ -84,7 +85,10 @@ def config_strategy() -> Any:
             for i in range(1, 400):  # keyed by the ordinal of the schema-relevant request transmission (0005 / 000C)
                 if draw(st.integers(0, 99)) < dens * 100:
                     mask[str(i)] = draw(st.sampled_from(("lose-req", "lose-rp")))
-        return {"config": cfg, "learn": draw(st.sampled_from(("schema", "heard"))), "mask": mask, "faults": faults, "rnd": draw(st.integers(0, 999))}
+        pauses = []
+        if faults != "none" and draw(st.booleans()):  # flow control: the transport pauses the protocol's writing for a while
+            pauses = [[draw(st.sampled_from((0.02, 0.3, 1.0, 3.5, 8.0, 31.0))), draw(st.sampled_from((0.2, 1.0, 5.0)))] for _ in range(draw(st.integers(1, 3)))]
+        return {"config": cfg, "learn": draw(st.sampled_from(("schema", "heard"))), "mask": mask, "faults": faults, "pauses": pauses, "rnd": draw(st.integers(0, 999))}
 
     return build
 
@@ -256,6 +260,9 @@ async def _run(loop: Any, case: dict) -> dict:
     schema = {CTL: {}} if case["learn"] == "schema" else {}
     gwy, port = await stack.make_gateway(eth, gwy_id=GWY, config={"disable_discovery": False, "enable_eavesdrop": False}, schema=schema)
     ctl.start_cycle()
+    for at, dur in case.get("pauses", []):
+        loop.call_later(at, gwy._protocol.pause_writing)
+        loop.call_later(at + dur, gwy._protocol.resume_writing)
     obs: dict[str, Any] = {"samples": []}
     # a failed probe (lost, or timed out behind a congested send queue) is repeated at the next polling round, 24 h later
     horizon = case.get("horizon") or (50 * 3600 if case["faults"] == "heavy" else 26 * 3600)
@@ -352,9 +359,9 @@ def explore(job: dict) -> dict:
         obs = execute(case)
         cfg = case["config"]
         classes = {z["class"] for z in cfg["zones"].values()}
-        nt = len(classes) >= 2 or bool(cfg["dhw"]) or obs["n_lost"] > 0
+        nt = len(classes) >= 2 or bool(cfg["dhw"]) or obs["n_lost"] > 0 or bool(case.get("pauses"))
         col.case(nt=jdump(case) if nt else None,
-                 classes=["cfg", f"faults:{case['faults']}", "converged-in-first-round" if (obs.get("t_converged") or 1e9) <= 3600 else "converged-later" if obs.get("t_converged") else "not-converged", f"learn:{case['learn']}", f"zones:{min(len(cfg['zones']), 12) // 4 * 4}+", "dhw" if cfg["dhw"] else "no-dhw",
+                 classes=["cfg", f"faults:{case['faults']}", "paused-writing" if case.get("pauses") else "never-paused", "converged-in-first-round" if (obs.get("t_converged") or 1e9) <= 3600 else "converged-later" if obs.get("t_converged") else "not-converged", f"learn:{case['learn']}", f"zones:{min(len(cfg['zones']), 12) // 4 * 4}+", "dhw" if cfg["dhw"] else "no-dhw",
                           f"app:{(cfg['appliance_control'] or 'none')[:2]}", "ctl-as-sensor" if any(z["sensor"] == CTL for z in cfg["zones"].values()) else "no-ctl-sensor",
                           "high-zones" if any(int(z, 16) >= 8 for z in cfg["zones"]) else "low-zones-only"],
                  sample={"config": cfg, "learn": case["learn"], "faults": case["faults"], "converged_s": obs.get("t_converged"), "requests": obs["n_requests"],
